@@ -194,6 +194,46 @@ theorem C02_statement_repaired {S : Sig} (E : Exec S) (hL : E.Local) :
     C02_statement E true :=
   fun R hv hN _ _ hr hsk => per_key_linearizable_repaired hL R hv hN hr hsk
 
+/-! ## non-vacuity of `per_key_linearizable_partial` -/
+
+section nonvacuous
+open Shards.Str
+
+/-- a two-shard system with consistent hashes (`C03.exRoutes`: key 3 lives on shard 1), pooled
+    slots, two clients whose requests overlap: client 0 invokes `fast_set 3 "b"`, client 1
+    invokes `GET 3` before that is executed, shard 1 executes both in mailbox order, both return -/
+theorem nonvacuous_reach : ∃ s, Reach (execN Str.exec C03.exRoutes false)
+      (cmdShard C03.exRoutes false) (Shards.init SVal 2) 2 s ∧
+    history s.log = [.inv 0 (.fastSet 3 [98]), .inv 1 (.single 3 .get), .res 1 (.one (.bulk [98])),
+      .res 0 (.one .ok)] := by
+  have r0 : Reach (execN Str.exec C03.exRoutes false) (cmdShard C03.exRoutes false)
+      (Shards.init SVal 2) 2 (Sys.init (Shards.init SVal 2) 2) := Reach.init
+  have r1 := Reach.step r0 (Step.invokePooled _ 0 (.fastSet 3 [98]) 0 [1] rfl rfl)
+  have r2 := Reach.step r1 (Step.invokePooled _ 1 (.single 3 .get) 1 [] rfl rfl)
+  have r3 := Reach.step r2 (Step.exec _ 1 ⟨0, 0, .fastSet 3 [98]⟩ [⟨1, 1, .single 3 .get⟩] rfl)
+  have r4 := Reach.step r3 (Step.exec _ 1 ⟨1, 1, .single 3 .get⟩ [] rfl)
+  have r5 := Reach.step r4 (Step.retRelease _ 1 1 (.single 3 .get) 1 _ rfl rfl)
+  have r6 := Reach.step r5 (Step.retRelease _ 0 0 (.fastSet 3 [98]) 0 _ rfl rfl)
+  exact ⟨_, r6, rfl⟩
+
+example : ∃ s : Sys (Shards SVal) (Cmd Str.sig) Reply,
+    history s.log ≠ [] ∧ PerKeyLinearizable Str.exec.exec cmdKey ([] : St) (history s.log) := by
+  obtain ⟨s, hr, hh⟩ := nonvacuous_reach
+  refine ⟨s, by rw [hh]; simp, ?_⟩
+  apply per_key_linearizable_partial Str.exec_local C03.exRoutes false C03.exRoutes_valid (by decide)
+    (consistent_of_routeConsistent _ (C03.routeConsistent_ofTable 2 _ (by decide)) false) hr
+  intro id req hm
+  have : (.inv id req) ∈ history s.log := mem_history_of_inv s.log id req hm
+  rw [hh] at this
+  simp only [List.mem_cons, List.not_mem_nil, or_false] at this
+  rcases this with e | e | e | e
+  · injection e with _ e2; subst e2; rfl
+  · injection e with _ e2; subst e2; rfl
+  · cases e
+  · cases e
+
+end nonvacuous
+
 /-! ## the pinned routing violates the full statement -/
 
 section counterexample
